@@ -432,8 +432,8 @@ Definition max_tsbd : Z := 48 * 3600.
 (** verifyAndFillConfig *)
 Definition verify_and_fill (c : cfg) (nowMS : Z) : res cfg :=
   if nowMS <? 0 then Err "nowMS must be >= 0"
-  else if fx_snr fx && match c_startNr c with Some n => maxu32 <? n | None => false end
-  then Err "snr must be below 2^32"
+  else if fx_snr fx && match c_startNr c with Some n => (maxu32 <? n) || (n <? -2147483648) | None => false end
+  then Err "snr must be"
   else if c_segTimelineNr c && c_segTimeline c then Err "cannot be used at same time"
   else if fx_subsdur fx && (c_subsDurMS c <=? 0) then Err "timesubsdur must be > 0"
   else if (c_subsRegion c <? 0) || (1 <? c_subsRegion c) then Err "timesubsreg number must be 0 or 1"
